@@ -78,7 +78,7 @@ func init() {
 			"T1 — retain/release typestate: every packet obtained from RTPBuffer.Get is released exactly once after its last use, every slot overwrite in RTPBuffer.Add/Clear releases the previous occupant exactly once, Get hands out only packets that passed a successful Retain (a double release would recycle a buffer that is still being retransmitted); " +
 			"C1 — ring, stream table and reference count are only touched under their mutexes; A1 — the original packet is forwarded exactly once after the copy; D5 — unbind removes the stream's ring.",
 		notDecided:  "which sequence numbers the ring holds (window arithmetic seq%size, half-range tests), RTX header field values, the padding arithmetic, that the retransmission goroutine has finished when Close returns (known finding under C11)",
-		sels: []sel{s("O2", `inspected|pkg/nack`), s("U1", `\|(internal/rtpbuffer|pkg/nack)[.:]`), s("T6"), s("V1", `\|(internal/rtpbuffer|pkg/nack)[.:]`), so("T5", `rtpbuffer`), so("C6", `nack\..*lookup-delete`), s("J5", `\|(internal/rtpbuffer|pkg/nack)[.:]`), so("T4", `rtpbuffer`), s("C8", `nack\.|inspected`), s("J4", `\|(internal/rtpbuffer|pkg/nack)[.:]`), so("F6", `rtpbuffer`), s("P3", `rtpbuffer\.RTPBuffer`), s("F2", `rtpbuffer`), s("B", `nack\.\(\*ResponderInterceptor\)`), s("T1"), so("T2"), s("C1", `pkg/nack\.(localStream|ResponderInterceptor)\.|rtpbuffer\.RetainablePacket\.`),
+		sels: []sel{s("O2", `inspected|pkg/nack`), s("U1", `\|(internal/rtpbuffer|pkg/nack)[.:]`), s("T6"), s("W1", `\|(internal/rtpbuffer|pkg/nack)[.:]`), s("V1", `\|(internal/rtpbuffer|pkg/nack)[.:]`), so("T5", `rtpbuffer`), so("C6", `nack\..*lookup-delete`), s("J5", `\|(internal/rtpbuffer|pkg/nack)[.:]`), so("T4", `rtpbuffer`), s("C8", `nack\.|inspected`), s("J4", `\|(internal/rtpbuffer|pkg/nack)[.:]`), so("F6", `rtpbuffer`), s("P3", `rtpbuffer\.RTPBuffer`), s("F2", `rtpbuffer`), s("B", `nack\.\(\*ResponderInterceptor\)`), s("T1"), so("T2"), s("C1", `pkg/nack\.(localStream|ResponderInterceptor)\.|rtpbuffer\.RetainablePacket\.`),
 			s("A1", `nack\.\(\*ResponderInterceptor\)`), s("D5", `nack\.ResponderInterceptor`)},
 		assumptions: stdAssume,
 	})
@@ -90,7 +90,7 @@ func init() {
 		explanation: "Decides a necessary structural clause for every long-lived container of the library (every map, slice, list, sync.Map and channel field of a struct type that another struct holds, plus slices local to goroutine loops and the jitter buffer's linked list): E1 — a container that grows on a traffic path (reachable from a per-packet closure, a goroutine entry or a pacer/estimator entry point) also shrinks on a traffic path, or is of a bounded kind (channel with a configured capacity, map keyed by a ≤16-bit type, owner struct replaced as a whole, per-call temporary); " +
 			"E2 — a shrink site that only executes when a struct field is set counts only if something in the program sets that field; E3 — where a growing slice is processed on an equality trigger len(x)==N, every path from that branch resets it (otherwise the length passes N and the trigger never fires again); D5 — per-stream containers filled by Bind*Stream are emptied by the matching Unbind*Stream.",
 		notDecided:  "the numeric bound itself; whether an existing shrink runs often enough; GC reachability through third-party objects; growth hidden inside pion/rtp, pion/rtcp or x/time/rate",
-		sels:        []sel{s("E4", `\|pkg/stats[.:]`), s("K4", `\|pkg/stats[.:]`), s("C6", `keyed-update`), s("E1"), s("E2"), so("E3"), s("D5")},
+		sels:        []sel{s("E5"), s("E4", `\|pkg/stats[.:]`), s("K4", `\|pkg/stats[.:]`), s("C6", `keyed-update`), s("E1"), s("E2"), so("E3"), s("D5")},
 		assumptions: []string{"go/ssa and go/types model the program faithfully", "traffic paths are the call-graph closure of per-packet closures, goroutine entries and the exported per-packet entry points of pacers/estimators/recorders"},
 	}
 }
@@ -110,14 +110,14 @@ func init() {
 		explanation: "Decides three structural clauses: L1 — every exported Pop* method of JitterBuffer reaches the queue only on the playing branch of the state test and the other branch returns an error (sibling agreement over Pop, PopAtSequence, PopAtTimestamp); L2 — the playout head is only advanced where the queue call's error is known nil (a failed pop does not disturb the buffer); " +
 			"L3 — every Clear resets each root from which queries traverse (PriorityQueue.next, JitterBuffer.packets, RTPBuffer.packets): assigned nil/fresh, element-cleared over the whole range, or delegated — otherwise Find/PopAt/PopAtTimestamp still return what was buffered before Clear.",
 		notDecided:  "sortedness of the linked list for arbitrary push orders (plain < on uint16, not wrap-aware), length bookkeeping, that PopAtSequence advances the head by one whatever sequence was popped, scalar playout state (playoutReady/playoutHead) after Clear(true)",
-		sels:        []sel{s("O1", `inspected|jitterbuffer`), s("V1", `\|pkg/jitterbuffer[.:]`), so("L5", `jitterbuffer`), s("J5", `\|pkg/jitterbuffer[.:]`), s("J4", `\|pkg/jitterbuffer[.:]`), so("L4", `jitterbuffer`), s("J3", `\|pkg/jitterbuffer[.:]`), s("L1"), s("L2"), s("L3")},
+		sels:        []sel{so("E5", `jitterbuffer`), s("O1", `inspected|jitterbuffer`), s("W1", `\|pkg/jitterbuffer[.:]`), s("V1", `\|pkg/jitterbuffer[.:]`), so("L5", `jitterbuffer`), s("J5", `\|pkg/jitterbuffer[.:]`), s("J4", `\|pkg/jitterbuffer[.:]`), so("L4", `jitterbuffer`), s("J3", `\|pkg/jitterbuffer[.:]`), s("L1"), s("L2"), s("L3")},
 		assumptions: std,
 	}
 	props["C20"] = &propDef{
 		id: "C20", title: "Sequence-number unwrapping: congruence and non-negativity clauses",
 		explanation: "Decides one clause by abstract interpretation of (*Unwrapper).Unwrap's SSA: J1 — with symbols i (the uint16 input) and L (the previous result), every integer value is tracked as an affine form a·i + b·L + c over ℤ/2^16 (constants reduced modulo 65536, width conversions are class-preserving, φ joins must agree, branches are ignored so the clause holds on every path); at every return the result and the stored state are exactly 1·i + 0·L + 0. This proves for all inputs and all prior states that the value returned is congruent to the input modulo 2^16. J2 — by induction on the state (hypothesis: previous result ≥ 0): every path alternative of the stored state and of the returned value, written as an integer linear form over the previous state and the unsigned quantities, is a sum of non-negative terms or is guarded by a dominating `E >= 0` branch whose E is exactly that linear form; hence the result is non-negative for every input sequence.",
 		notDecided:  "the ±2^15 proximity to the previous result (needs interval reasoning coupled to the half-range predicate), and every NTP clause (float64 rounding, monotonicity, 1 µs round trip) — numerical, not decidable by a structural rule",
-		sels:        []sel{s("U1", `\|internal/sequencenumber[.:]`), s("V1", `\|internal/sequencenumber[.:]`), s("J5", `\|internal/sequencenumber[.:]`), s("J4", `\|internal/sequencenumber[.:]`), s("J3", `\|internal/sequencenumber[.:]`), s("J1"), s("J2")},
+		sels:        []sel{s("U1", `\|internal/sequencenumber[.:]`), s("W1", `\|internal/sequencenumber[.:]`), s("V1", `\|internal/sequencenumber[.:]`), s("J5", `\|internal/sequencenumber[.:]`), s("J4", `\|internal/sequencenumber[.:]`), s("J3", `\|internal/sequencenumber[.:]`), s("J1"), s("J2")},
 		assumptions: std,
 	}
 }
@@ -129,7 +129,7 @@ func init() {
 		explanation: "Decides the structural clauses the statement singles out: G1 — in every function that walks []*rtcp.RecvDelta with a cursor, no instruction that advances the cursor is control-dependent (post-dominator based, transitively) on a condition derived from a lookup in long-lived state (a comma-ok map lookup on a field, or a (T,bool) lookup predicate such as feedbackHistory.get): the arrival time decoded for a packet is independent of whether neighbouring packets are still in the history; " +
 			"G2 — in every symbol loop, the counter that feeds the attribution key (feedbackHistoryKey.sequenceNumber / acknowledgement.sequenceNumber) is advanced exactly once on every path through the loop body (path counting), or is the range index; F1 — every index into RecvDeltas / packet-derived slices is guarded; E2 — the flag that lets history.delete release the TWCC mapping is actually set.",
 		notDecided:  "arrival-time arithmetic (reference time ×64 ms, 250 µs deltas, RFC 8888 offsets), LRU contents of the sent-packet history, that each sent packet is reported at most once and in send order (value properties of history.buildReport), zero-valued acknowledgements emitted for unknown packets",
-		sels:        []sel{s("O2", `inspected|rtpfb`), s("A9"), s("V1", `\|(pkg/rtpfb|internal/cc)[.:]`), s("J5", `\|(pkg/rtpfb|internal/cc)[.:]`), s("F7"), s("G3", `rtpfb`), s("P3", `rtpfb\.history`), s("J3", `\|(pkg/rtpfb|internal/cc)[.:]`), so("G1"), so("G2"), so("F1", `rtpfb\.convertTWCC|FeedbackAdapter|rtpfb\.convert`), so("E2", `rtpfb\.history`), so("E1", `rtpfb\.history`)},
+		sels:        []sel{s("O2", `inspected|rtpfb`), s("A9"), s("W1", `\|(pkg/rtpfb|internal/cc)[.:]`), s("V1", `\|(pkg/rtpfb|internal/cc)[.:]`), s("J5", `\|(pkg/rtpfb|internal/cc)[.:]`), s("F7"), s("G3", `rtpfb`), s("P3", `rtpfb\.history`), s("J3", `\|(pkg/rtpfb|internal/cc)[.:]`), so("G1"), so("G2"), so("F1", `rtpfb\.convertTWCC|FeedbackAdapter|rtpfb\.convert`), so("E2", `rtpfb\.history`), so("E1", `rtpfb\.history`)},
 		assumptions: std,
 	}
 	props["C16"] = &propDef{
@@ -138,7 +138,7 @@ func init() {
 			"H2 — in the publishing function every pacer.SetTargetBitrate call and every invocation of the change callback receives the stored value itself (same SSA value or a reload of the field), and GetTargetBitrate returns that field (under SendSideBWE.lock by C1); " +
 			"H3 — every call path to a plain send on a channel that a Close method closes passes a closed test on its not-closed branch while a lock is read-held that the closing site holds exclusively (no send on a closed pipe, documented closed error otherwise); C5 — that wait-under-lock is deadlock-free; C1/C2 rows of the gcc types.",
 		notDecided:  "anything about the floating-point pipeline itself (rate = bits/dt with dt = 0, 0/0 in increase) beyond the fact that the clamp absorbs it; that feedback never blocks for long (consumers are goroutines fed through unbuffered pipes)",
-		sels:        []sel{s("D9", `pkg/gcc\.`), s("D8", `pkg/gcc\.`), s("U1", `\|pkg/gcc[.:]`), s("V1", `\|pkg/(gcc|cc)[.:]`), s("C9", `inspected|gcc\.`), s("A5", `pkg/(cc|gcc)\.`), s("C7", `pkg/gcc\.`), s("H1"), s("H2"), s("H3"), s("C5", `gcc\.`), s("C1", `pkg/gcc\.`), s("C2", `pkg/gcc\.`)},
+		sels:        []sel{s("D9", `pkg/gcc\.`), s("D8", `pkg/gcc\.`), s("U1", `\|pkg/gcc[.:]`), s("W1", `\|pkg/(gcc|cc)[.:]`), s("V1", `\|pkg/(gcc|cc)[.:]`), s("C9", `inspected|gcc\.`), s("A5", `pkg/(cc|gcc)\.`), s("C7", `pkg/gcc\.`), s("H1"), s("H2"), s("H3"), s("C5", `gcc\.`), s("C1", `pkg/gcc\.`), s("C2", `pkg/gcc\.`)},
 		assumptions: std,
 	}
 }
@@ -149,7 +149,7 @@ func init() {
 		id: "C07", title: "Sender reports count what was sent (counter clause only)",
 		explanation: "Decides the counter clause: P1 — the sender-report writer closure calls senderStream.processRTP exactly once (path counting) before each identity forward, with the caller's own payload; inside processRTP packetCount is assigned its previous value +1 and octetCount its previous value + len(payload), each exactly once on every path (no branch skips or repeats them); A1 — every packet is forwarded exactly once or rejected; C1/C6 — both counters are only touched under senderStream.m and the read-modify-write is one critical section (no lost update).",
 		notDecided:  "the RTP↔NTP clause entirely: extrapolated RTP timestamp, NTP conversion, modulo-2^32 arithmetic, the out-of-order reference rule, one report per stream per tick",
-		sels:        []sel{s("A8", `report\.|inspected`), s("V1", `\|pkg/report[.:]`), s("J5", `\|pkg/report[.:]`), s("J4", `\|pkg/report[.:]`), s("P3", `report\.senderStream`), s("P1"), s("A1", `report\.\(\*SenderInterceptor\)`), s("C1", `report\.senderStream\.`), s("C6", `report\.senderStream\.`), s("D5", `report\.SenderInterceptor`)},
+		sels:        []sel{s("A8", `report\.|inspected`), s("W1", `\|pkg/report[.:]`), s("V1", `\|pkg/report[.:]`), s("J5", `\|pkg/report[.:]`), s("J4", `\|pkg/report[.:]`), s("P3", `report\.senderStream`), s("P1"), s("A1", `report\.\(\*SenderInterceptor\)`), s("C1", `report\.senderStream\.`), s("C6", `report\.senderStream\.`), s("D5", `report\.SenderInterceptor`)},
 		assumptions: std,
 	}
 	props["C14"] = &propDef{
@@ -157,7 +157,7 @@ func init() {
 		explanation: "Decides the structural clauses: M1 — in FlexEncoder03.encodeFlexFecPacket all accesses to the coverage table (GetCoveredBy, ExtractMask1/2/3_03) use one and the same index value, so the masks written name exactly the packets that were combined, and the repair sequence number is advanced exactly once on every path that produces a packet and on none that does not; " +
 			"P2 + A1 — the application's packet is forwarded first, exactly once, unmodified (A3), and repair packets are injections issued only after it; B — what is buffered for XOR is a deep copy of what was sent (caller may reuse its buffer); F2 — the scratch buffer is re-allocated when a packet exceeds the pooled size; E3/C1 — the batch buffer is reset on every path from the batch-full trigger, under the stream mutex.",
 		notDecided:  "XOR recoverability itself, bit layout of the masks, header offsets and length recovery — algebra over byte values; the coverage mask construction (flexfec_coverage.go); FlexEncoder20 and the decoder (declared work in progress)",
-		sels:        []sel{s("V1", `\|pkg/flexfec`), s("T5", `inspected|flexfec`), so("T4", `flexfec`), s("K4", `\|pkg/flexfec[.:]`), s("T3", `flexfec`), s("M1"), so("P2", `flexfec`), s("A1", `flexfec`), s("A3", `flexfec`), s("B", `flexfec`), so("F2", `flexfec`), so("E3", `flexfec`), s("C1", `flexfec\.`)},
+		sels:        []sel{s("W1", `\|pkg/flexfec`), s("V1", `\|pkg/flexfec`), s("T5", `inspected|flexfec`), so("T4", `flexfec`), s("K4", `\|pkg/flexfec[.:]`), s("T3", `flexfec`), s("M1"), so("P2", `flexfec`), s("A1", `flexfec`), s("A3", `flexfec`), s("B", `flexfec`), so("F2", `flexfec`), so("E3", `flexfec`), s("C1", `flexfec\.`)},
 		assumptions: std,
 	}
 	props["C17"] = &propDef{
@@ -173,7 +173,7 @@ func init() {
 		explanation: "Decides: S1 — every store into a field of the exported *StreamStats structs in the recorder's record* methods is dominated by a branch condition computed from the recorder's own SSRC (header SSRC, MediaSSRC, report SSRC or DestinationSSRC membership compared with r.ssrc): a counter only moves for traffic addressed to that SSRC; S2 — the loops over the packets of a compound RTCP have no early exit (every packet of the compound is visited); S3 — no branch inside such a loop tests a loop-carried boolean that was computed from the recorder's SSRC for an earlier packet (each packet is judged by itself); " +
 			"A1/A2 on the four stats closures — every forwarded / successfully read packet is handed to the recorder exactly once and a failed read never is; C1/C6 — latestStats is only read and updated under recorder.ms in one critical section (no lost update).",
 		notDecided:  "every formula: packets lost as expected-minus-received, jitter, RTT from LSR/DLSR and DLRR, fraction lost, NTP conversions — numerical",
-		sels:        []sel{s("U1", `\|pkg/stats[.:]`), s("S6"), s("V1", `\|pkg/stats[.:]`), s("E4", `\|pkg/stats[.:]`), s("K4", `\|pkg/stats[.:]`), s("P3", `stats\.internalStats`), s("S1"), s("S2"), s("S3"), s("S4"), s("S5"), s("A1", `stats\.`), s("A2", `stats\.`), s("C1", `stats\.`), so("C6", `stats\.`)},
+		sels:        []sel{s("U1", `\|pkg/stats[.:]`), s("S6"), s("W1", `\|pkg/stats[.:]`), s("V1", `\|pkg/stats[.:]`), s("E4", `\|pkg/stats[.:]`), s("K4", `\|pkg/stats[.:]`), s("P3", `stats\.internalStats`), s("S1"), s("S2"), s("S3"), s("S4"), s("S5"), s("A1", `stats\.`), s("A2", `stats\.`), s("C1", `stats\.`), so("C6", `stats\.`)},
 		assumptions: std,
 	}
 }
@@ -239,6 +239,9 @@ func init() {
 	add("C11", "D9 every Close method that closes a lifecycle channel does so, or finds it closed, on every feasible path to a return.")
 	add("C17", "Q1 also (slice queue): the element written is cut from the queue in the same iteration — the cut dominates the write, or no path from the write back to the loop head goes around a cut — so a failed downstream write cannot hand the same packet over twice.")
 	add("C18", "L2 also: where a pop's queue call is known to have failed, no method that writes through the queue is called (a failed pop leaves the buffer as it was). L3 does not demand that Clear reset a free list — a field every store into which stores a node zeroed as a whole or taken from the field's own chain.")
+	add("C12", "E5 a node taken off the front of a doubly linked list is cut off from it: after the root advances (`q.next = q.next.next`) every path resets the new first node's back pointer or finds the list empty — otherwise every node ever popped stays reachable through the chain of back pointers while the list is not empty.")
+	add("C18", "E5 the jitter buffer's list does not keep popped nodes reachable through the new head's back pointer.")
+	add("C09", "W1 no successful return hands back a named result that nothing ever assigned while sibling returns compute that position (the running reference time of the TWCC chunk unpackers restarts at zero).")
 	add("C04", "U1 in the function that has the ring's first-packet branch (`if !started { started = true; highestAdded = seq … }`), no field that branch initialises is read before the flag test: a fast path ahead of it would file the first packet as the successor of number 0.")
 	add("C20", "U1 the unwrapper's last value is not read ahead of its first-call test.")
 	add("C19", "U1 no statistics field initialised by a first-packet branch is read ahead of that branch's flag test.")
